@@ -2,6 +2,7 @@
 from rules import misc as M
 from rules import tables as T
 from rules import locking as L
+from rules import operators as OP
 
 
 def run(ctx):
@@ -9,6 +10,8 @@ def run(ctx):
     ctx.run(T.tbl14_aggregate_merge_table)
     ctx.run(L.flw16_offsets_count_placed_rows)
     ctx.run(M.ord13_sort_structure)
+    ctx.run(OP.nul3_sentinel_survives_casts)
+    ctx.run(OP.pan5_result_type_lattice_total)
     return ctx.finish(
         'Equality of results across batchings, compaction states, batch sizes and thread counts is a '
         'relation between runtime values and is NOT decided. Decided are four clauses of it that are '
